@@ -16,8 +16,9 @@ type Check struct {
 	QuickSecs     float64 // wall-clock budget for the exploration phase, quick tier
 	ThorRuns      int
 	ThorSecs      float64
-	Batch         int // seeds per worker process
-	MinNontrivial int // vacuity guard: fewer distinct non-trivial runs than this => exit 2
+	RunLimitS     float64 // wall-clock watchdog per run (default 60 s)
+	Batch         int     // seeds per worker process
+	MinNontrivial int     // vacuity guard: fewer distinct non-trivial runs than this => exit 2
 }
 
 var Checks = map[string]*Check{}
@@ -44,7 +45,7 @@ func init() {
 		Stub:      e1Stub,
 		Rule:      "one case = one seeded run (n, t, mode, dispatch, schedule) of a full BLS DKG followed by the documented sign/aggregate/verify flow over every subset of size >= t for 5 digests; distinct = distinct schedule fingerprint; non-trivial = at least one cross-link delivery-order inversion relative to send order",
 		Assume:    []string{"links are reliable and FIFO per direction", "identity node-id/party-id map, ids < 256 (C06/C13 cover the rest)"},
-		QuickRuns: 4000, QuickSecs: 90, ThorRuns: 30000, ThorSecs: 900, Batch: 25,
+		QuickRuns: 4000, QuickSecs: 90, ThorRuns: 300000, ThorSecs: 900, Batch: 25, RunLimitS: 600,
 	})
 	Register(&Check{
 		ID: "C05", Engine: "netsim",
@@ -52,7 +53,7 @@ func init() {
 		Stub:      append([]string{"the culprit's NIC (adversary rewriting its DKG messages per destination)", "transparent recording proxy around honest backends (disclosure-order monitor)"}, e1Stub...),
 		Rule:      "run i walks the catalogue systematically: deviation = catalogue[i mod 12] (none, off-polynomial shares, reveal != commitment, consistently committed off-polynomial key, equivocated commit / reveal, malformed (8 mutations incl. wrong arity), duplicate, early reveal, second commit, late share, withhold) x victim set = the (i div 12)-th non-empty subset of the honest parties; n, t (incl. t = n), culprit, backend (BLS/PS), mode and schedule are drawn; distinct = distinct (deviation, culprit, victims, schedule fingerprint); non-trivial = the deviation actually altered, added or removed a message (or the control case 'none')",
 		Assume:    []string{"links are reliable FIFO", "one deviating participant per run; it never spoofs an honest source"},
-		QuickRuns: 6000, QuickSecs: 90, ThorRuns: 30000, ThorSecs: 900, Batch: 20,
+		QuickRuns: 6000, QuickSecs: 90, ThorRuns: 300000, ThorSecs: 900, Batch: 20,
 	})
 	Register(&Check{
 		ID: "C07", Engine: "netsim",
@@ -60,7 +61,7 @@ func init() {
 		Stub:      []string{"transport (simulator-owned per-link FIFO queues)", "logger (counting stub)", "Byzantine configured members (harness code fabricating membership/query/response messages with valid and foreign tags and lying views)"},
 		Rule:      "one case = one seeded universe of 3..6 (thorough 8) members with ids over the 16-bit range, 1..3 topics with drawn invoker subsets and expected counts (exact, one short, one over, room for Byzantine members), 0..n-2 Byzantine members injecting up to 25 fabricated messages, one delivery schedule; distinct = distinct schedule fingerprint; non-trivial = at least one honest completion and (an injection fired, or several topics ran concurrently, or an id >= 256 took part)",
 		Assume:    []string{"links are reliable FIFO", "Byzantine members are configured members (they can compute every tag, as the HMAC key is the topic)", "the transport authenticates the source"},
-		QuickRuns: 20000, QuickSecs: 60, ThorRuns: 80000, ThorSecs: 900,
+		QuickRuns: 20000, QuickSecs: 60, ThorRuns: 800000, ThorSecs: 900,
 	})
 	Register(&Check{
 		ID: "C08", Engine: "netsim",
@@ -68,7 +69,7 @@ func init() {
 		Stub:      e1Stub,
 		Rule:      "one case = one seeded run (n, t, message length L, mode, schedule) of a full PS DKG through the real stack, followed by the documented flow for 4 message vectors (mixed empty/equal/1-byte/long/random entries, all-equal, all-empty) and every signer subset of size >= t; the schedule dimension concerns the DKG only, the rest is a seeded input sweep; distinct = distinct schedule fingerprint; non-trivial = at least one cross-link delivery-order inversion during the DKG",
 		Assume:    []string{"links are reliable FIFO", "party ids 1..n (the documented usage: the prover uses the party id as evaluation point)"},
-		QuickRuns: 2500, QuickSecs: 90, ThorRuns: 20000, ThorSecs: 900, Batch: 12,
+		QuickRuns: 2500, QuickSecs: 90, ThorRuns: 200000, ThorSecs: 900, Batch: 12,
 	})
 	Register(&Check{
 		ID: "C10", Engine: "netsim",
@@ -76,7 +77,7 @@ func init() {
 		Stub:      append([]string{"MPC backend (scripted) in part of the runs", "garbage source: structure-aware mutations of real in-flight messages + raw random bytes, sent by Byzantine participants, a configured outsider and an unknown id"}, e1Stub...),
 		Rule:      "one case = one seeded session (scripted/BLS/PS, loud/silent, KeyGen/Sign, n=2..4) with 20..160 garbage messages (15 mutation kinds: every truncation length, extension, empty, nil, type, 7 topic shapes incl. nil and <8 bytes, acknowledgement fields incl. digest lengths 0..64, first/second payload byte sweep, raw random, bit flip, synchroniser tails of every length around the tag, oversized view) injected at seeded points in the states idle / synchronising / protocol / finished; in mode 'foreign' (other topics, non-participants) the session must also complete; 15% of the runs additionally sweep ~600 DER-structure-aware and byte-level mutants of valid public parameters, signatures, blinded requests, proofs and partial signatures through the client-facing entry points (input mutation, not schedule exploration); distinct = distinct schedule fingerprint; non-trivial = garbage was injected while a session was synchronising or running",
 		Assume:    []string{"the transport authenticates the source (garbage never carries an honest participant's id unless that participant is the Byzantine one of the run)", "the handshake surface of net is covered by the connsim engine (C16/C17), not here"},
-		QuickRuns: 2500, QuickSecs: 100, ThorRuns: 50000, ThorSecs: 1200, Batch: 30,
+		QuickRuns: 2500, QuickSecs: 100, ThorRuns: 500000, ThorSecs: 1200, Batch: 30,
 	})
 	Register(&Check{
 		ID: "C11", Engine: "netsim", Level: "fault_enumeration",
@@ -84,7 +85,7 @@ func init() {
 		Stub:      append([]string{"MPC backend (scripted, lock-step rounds) in part of the runs"}, e1Stub...),
 		Rule:      "runs 0..N-1 enumerate, on the canonical schedule, for 8 base sessions (scripted/BLS/PS x loud/silent x KeyGen, scripted Sign) every peer P and every k: P silent after its k-th outgoing message (k=0: never shows up), and every single withheld message (enumeration indices beyond the traffic of the session are skipped); further runs draw crash point / withheld message / cancellation step / unusable stored data under seeded schedules for n=2..4; distinct = distinct (base, fault, position, outcome, schedule fingerprint); non-trivial = the fault fired while session traffic was in flight",
 		Assume:    []string{"links are reliable FIFO until the fault", "a crashed node's own call is not judged"},
-		QuickRuns: 12000, QuickSecs: 100, ThorRuns: 60000, ThorSecs: 900, Batch: 60,
+		QuickRuns: 12000, QuickSecs: 100, ThorRuns: 600000, ThorSecs: 900, Batch: 60,
 	})
 	Register(&Check{
 		ID: "C12", Engine: "netsim",
@@ -92,7 +93,7 @@ func init() {
 		Stub:      append([]string{"MPC backend (scripted; hand-offs attributed to the emitting instance through unique payload bodies)", "outsider adversary (non-participants re-send copies of session traffic)"}, e1Stub...),
 		Rule:      "one case = one seeded history of 2..6 phases over 1..3 topics (successful, peer-missing, cancelled, overlapping same-topic, concurrent different-topic Sign; successful and peer-missing KeyGen; a retry on the topic of an earlier failure), network drained between phases, seeded schedule inside each phase; distinct = distinct (history, schedule fingerprint); non-trivial = at least one failed/cancelled/overlapping session precedes a later phase",
 		Assume:    []string{"links are reliable FIFO", "a retry starts after the traffic of the earlier session has been delivered (topic reuse while old traffic is in flight is outside the statement)"},
-		QuickRuns: 12000, QuickSecs: 60, ThorRuns: 50000, ThorSecs: 900,
+		QuickRuns: 12000, QuickSecs: 60, ThorRuns: 500000, ThorSecs: 900,
 	})
 	Register(&Check{
 		ID: "C14", Engine: "coop", Overlay: "coop",
@@ -100,7 +101,7 @@ func init() {
 		Stub:      []string{"callers (1..3 receiving tasks = one goroutine per peer connection, 1..3 sending tasks = protocol goroutines)", "MessageHandler (recording; in 30% of the runs it calls Box.Send itself, as the orchestrator does when it acknowledges)", "ForwardSend (no-op)", "ticker (simulator-owned channel through the NewTicker seam)", "logger (counting stub)"},
 		Rule:      "one case = one seeded workload (1..3 topics, 1..3 senders with 1..4 messages each, 1..3 sending tasks, 0..2 clock ticks) and one seeded interleaving at the granularity of every Lock/Unlock/RLock/RUnlock/atomic/Once operation of the real code (random walk, PCT d=1..3, delay-bounded); distinct = distinct sequence of (task, operation) choices; non-trivial = at least one Send task ran between two operations of a receiving task",
 		Assume:    []string{"senders stay within the documented per-sender limits", "the scheduler's lock model admits exactly the interleavings of Go's sync.RWMutex in which a parked task has not yet executed its pending operation"},
-		QuickRuns: 100000, QuickSecs: 60, ThorRuns: 400000, ThorSecs: 900, Batch: 400,
+		QuickRuns: 100000, QuickSecs: 60, ThorRuns: 4000000, ThorSecs: 900, Batch: 400,
 	})
 	Register(&Check{
 		ID: "C15", Engine: "box",
@@ -108,7 +109,7 @@ func init() {
 		Stub:      []string{"callers (one sequential history)", "MessageHandler (recording)", "ForwardSend (no-op)", "logger (counting stub)"},
 		Rule:      "one case = one seeded history of 20..250 (thorough ..2500) operations recv(sender, topic, burst 1..110) / send(topic) / idle(0..expiry+4 sweeps) on a Box with MaxInFlightTopicsBySender 1..6, GCSweep 1/5/20 s and GCExpire 2..6 sweeps (production values in part of the thorough runs), judged operation by operation by a reference model with tolerances (limit +-1; data surely alive before expiry - 1 sweep, surely discarded after expiry + 2 sweeps and three later sends in distinct sweep periods, either in between); distinct = distinct (configuration, history); non-trivial = at least one buffered message was released by a start and at least one idle period occurred",
 		Assume:    []string{"single caller (interleavings are C14's subject)", "the GC is driven by Send, so 'eventually discarded' is judged only after later sends"},
-		QuickRuns: 30000, QuickSecs: 60, ThorRuns: 100000, ThorSecs: 900, Batch: 150,
+		QuickRuns: 30000, QuickSecs: 60, ThorRuns: 1000000, ThorSecs: 900, Batch: 150,
 	})
 	connReal := []string{"net.go: ServiceConnections, handleConn, authenticateConnection, readMsg, Handshake.Read/Write, SocketRemoteParties.Send, remoteParty.sendMessages/maybeConnect/send (tls.Dial call redirected to the simulator's dialer by go build -overlay)", "crypto/tls 1.3 (real handshakes, records, exporter)", "testutil/tlsgen (CA, server and identity certificates)"}
 	connStub := []string{"byte-stream network (in-memory pipes; the simulator releases chunks at seeded boundaries, stalls, flips bits, resets, refuses dials)", "message consumers (recording)", "logger (counting stub)"}
@@ -116,13 +117,13 @@ func init() {
 		ID: "C16", Engine: "connsim", Overlay: "connsim", Real: connReal, Stub: append([]string{"adversarial clients (harness code: genuine TLS handshake, then a handshake variant and a marker frame)", "reference authentication model (harness, written from the statement)"}, connStub...),
 		Rule:      "one case = one seeded run of 3..4 real transport parties exchanging honest traffic while 2..6 adversarial connections arrive at seeded points; the 27 handshake variants (valid, old timestamp, binding flipped / empty / of another connection / replayed, identity of another node / unregistered / empty / with leading or trailing junk, signature by another node / unregistered key / over another binding / over another domain / missing / garbage, domain altered or differently signed, RSA / Ed25519 / P-384 identities, truncation at a seeded point, short / long length prefix, noise, trailing bytes) are walked by the run index; byte streams are released in seeded chunks; distinct = distinct sequence of (pipe, event) choices; non-trivial = at least one adversarial connection was rejected while honest traffic was delivered",
 		Assume:    []string{"the adversary cannot break TLS or ECDSA; it may hold certificates of the same CA and may be a registered node itself"},
-		QuickRuns: 3000, QuickSecs: 100, ThorRuns: 12000, ThorSecs: 1200, Batch: 15,
+		QuickRuns: 3000, QuickSecs: 100, ThorRuns: 120000, ThorSecs: 1200, Batch: 15,
 	})
 	Register(&Check{
 		ID: "C17", Engine: "connsim", Overlay: "connsim", Real: connReal, Stub: append([]string{"a registered peer that frames by hand (odd write pieces, oversize announcement)"}, connStub...),
 		Rule:      "one case = one seeded run of 3..4 real transport parties with 2..5 concurrently sending goroutines (2..9 messages each; types 0/1/2/3/200 with legal topic combinations; payload lengths 0,1,31,32,33,4 KiB+-1,64 KiB+-1, 1 MiB, thorough: limit-1 and limit) and one configuration: fault-free, or one peer down / stalled / garbling / reset mid-stream / flooded while down (1100 messages) / a hand-framing peer announcing limit+1 / writing valid frames in odd pieces; the byte streams are released in seeded chunks (short reads at arbitrary boundaries); distinct = distinct sequence of (pipe, event) choices; non-trivial = messages were received and at least one release split the pending bytes of a pipe",
 		Assume:    []string{"TLS record contents and ECDSA signatures vary between executions: schedules are expressed in pipe-level events and replay at frame level, not byte offsets"},
-		QuickRuns: 2500, QuickSecs: 100, ThorRuns: 8000, ThorSecs: 1200, Batch: 10,
+		QuickRuns: 2500, QuickSecs: 100, ThorRuns: 80000, ThorSecs: 1200, Batch: 10,
 	})
 	Register(&Check{
 		ID: "C19", Engine: "netsim",
@@ -130,7 +131,7 @@ func init() {
 		Stub:      append([]string{"recording proxy around the adapters (captures sendMsg routing flags)", "a participant that re-sends other parties' payloads under its own identity (20% of the EdDSA runs)"}, e1Stub...),
 		Rule:      "one case = one seeded run of KeyGen followed by Sign among t+1 nodes through the full stack, (n,t) in {(2,1),(3,1),(3,2),(4,2),(4,3)}, EdDSA (ECDSA in ~4% of quick and 12% of thorough runs: 20-60 s each), digest shapes: 32 random bytes, leading zero byte(s), 1..20 bytes, 64 bytes; distinct = distinct schedule fingerprint; non-trivial = cross-link delivery inversions occurred and at least one signature was returned and checked",
 		Assume:    []string{"tss-lib internals are not byte-reproducible (goroutine pools, own randomness): traces of these runs are compared by schedule only", "in tss-lib v2.0.2 the wire bytes carry no sender; the adapter's claimed-sender test compares the transport sender with itself, so the sender-binding clause is exercised only behaviourally (replayed payloads under another authenticated identity)"},
-		QuickRuns: 160, QuickSecs: 110, ThorRuns: 4000, ThorSecs: 1500, Batch: 5,
+		QuickRuns: 160, QuickSecs: 110, ThorRuns: 40000, ThorSecs: 1500, Batch: 5, RunLimitS: 600,
 	})
 	Register(&Check{
 		ID: "C20", Engine: "netsim", Race: true,
@@ -138,7 +139,7 @@ func init() {
 		Stub:      append([]string{"MPC backend (scripted) in the session-history scenarios", "the deviating participant's NIC (early / duplicated / out-of-phase / malformed DKG messages)"}, e1Stub...),
 		Rule:      "one case = one seeded run with concurrent dispatch (up to 4 deliveries into the same node started in one step, each on its own goroutine): 70% DKG (BLS/PS) with a deviating participant (early reveal, duplicates, late share, second commitment, withholding, malformed, none), 30% session histories (concurrent Sign on several topics, overlapping, cancelled, retried; KeyGen); oracle = Go race detector (GORACE=halt_on_error) plus panics; distinct = distinct schedule fingerprint; non-trivial = at least one step dispatched several deliveries concurrently",
 		Assume:    []string{"the race detector reports unordered conflicting accesses of the explored executions only", "goroutine interleaving inside a step is decided by the Go scheduler: a reported race replays with high probability, not certainty"},
-		QuickRuns: 4000, QuickSecs: 120, ThorRuns: 30000, ThorSecs: 1200, Batch: 25,
+		QuickRuns: 4000, QuickSecs: 120, ThorRuns: 300000, ThorSecs: 1200, Batch: 25,
 	})
 	Register(&Check{
 		ID: "C13", Engine: "netsim",
@@ -146,7 +147,7 @@ func init() {
 		Stub:      append([]string{"MPC backend (scripted, rounds 0..127) in part of the runs"}, e1Stub...),
 		Rule:      "runs 0..454 enumerate all pairs and triples of the boundary identifiers {0,1,127,128,255,256,257,511,512,0x7FFF,0x8000,0xFF00,0xFFFE,0xFFFF}; later runs sample identifiers over the whole 16-bit range; each case is a fault-free session (KeyGen and/or Sign, scripted or BLS backend) run twice, with the drawn ids and with the order-isomorphic ids 1..n; distinct = distinct (identifier tuple, schedule fingerprint); non-trivial = at least one identifier >= 256",
 		Assume:    []string{"links are reliable and FIFO per direction", "identity node-id/party-id map"},
-		QuickRuns: 6000, QuickSecs: 60, ThorRuns: 20000, ThorSecs: 600, Batch: 35,
+		QuickRuns: 6000, QuickSecs: 60, ThorRuns: 200000, ThorSecs: 600, Batch: 35,
 	})
 	Register(&Check{
 		ID: "C06", Engine: "netsim",
@@ -154,7 +155,7 @@ func init() {
 		Stub:      append([]string{"MPC backend (scripted; records Init/OnMsg arguments and every emitted message)"}, e1Stub...),
 		Rule:      "one case = one seeded membership map over 16-bit ids (identity / injective non-identity / several nodes per party, any replica participating, optionally two replicas of one party selected) x KeyGen and/or Sign x schedule; distinct = distinct (map, schedule fingerprint); non-trivial = the map is not the identity",
 		Assume:    []string{"links are reliable and FIFO per direction", "the backend learns its own party id from the application (the factory is handed the node id)"},
-		QuickRuns: 12000, QuickSecs: 60, ThorRuns: 40000, ThorSecs: 600,
+		QuickRuns: 12000, QuickSecs: 60, ThorRuns: 400000, ThorSecs: 600,
 	})
 	byzReal := []string{"threshold.Scheme via LoudScheme/SilentScheme (dispatcher, rbcFilter, ack encoding)", "rbc.Receiver", "disc.Member", "disc.SilentSynchronizer", "msg.Box"}
 	byzStub := append([]string{"MPC backend (scripted; records every hand-off)", "Byzantine NIC (adversary rewriting/injecting the traffic of the misbehaving participants and outsiders; never spoofs an honest source)"}, e1Stub...)
@@ -162,13 +163,13 @@ func init() {
 		ID: "C02", Engine: "netsim", Real: byzReal, Stub: byzStub,
 		Rule:      "one case = one seeded session (KeyGen or Sign, N=3..4, thorough ..6) with 1..N-2 Byzantine participants and outsiders, a drawn subset of fault kinds (equivocation per destination, forged acknowledgements about self/others/unseen digests, early and late, replays, mutated and withheld acknowledgements, outsider traffic) and a delivery schedule; distinct = distinct fingerprint of the sequence of (link, message class, injection) choices; non-trivial = at least one adversarial action fired and at least one broadcast was handed to an honest backend",
 		Assume:    []string{"the transport authenticates the source: the adversary never sends under an honest identity (C16)", "honest links are reliable FIFO"},
-		QuickRuns: 20000, QuickSecs: 60, ThorRuns: 80000, ThorSecs: 900,
+		QuickRuns: 20000, QuickSecs: 60, ThorRuns: 800000, ThorSecs: 900,
 	})
 	Register(&Check{
 		ID: "C03", Engine: "netsim", Real: byzReal, Stub: byzStub,
 		Rule:      "same scenario space as C02 plus honest-only sessions; oracle over the hand-off log vs the simulator's wire log (participant, really transmitted to this party, at most once per sender and round, non-empty; p2p as received); distinct = distinct schedule fingerprint; non-trivial = at least one adversarial action fired and at least one broadcast was handed to an honest backend",
 		Assume:    []string{"the transport authenticates the source: the adversary never sends under an honest identity (C16)", "honest links are reliable FIFO"},
-		QuickRuns: 20000, QuickSecs: 60, ThorRuns: 80000, ThorSecs: 900,
+		QuickRuns: 20000, QuickSecs: 60, ThorRuns: 800000, ThorSecs: 900,
 	})
 	Register(&Check{
 		ID: "C04", Engine: "netsim",
@@ -176,6 +177,6 @@ func init() {
 		Stub:      append([]string{"MPC backend (scripted R-round protocol, one round number per broadcast)"}, e1Stub...),
 		Rule:      "one case = one seeded run (configuration + delivery schedule) of KeyGen and/or Sign among honest nodes; distinct = distinct fingerprint of the sequence of (link, message class) choices; non-trivial = at least one acknowledgement was delivered to a node before the payload it refers to",
 		Assume:    []string{"links are reliable and FIFO per direction (what the bundled TLS transport provides)", "goroutine interleavings inside one simulator step are not enumerated, only made irrelevant for replay"},
-		QuickRuns: 15000, QuickSecs: 60, ThorRuns: 60000, ThorSecs: 600,
+		QuickRuns: 15000, QuickSecs: 60, ThorRuns: 600000, ThorSecs: 600,
 	})
 }
